@@ -18,7 +18,7 @@ func (c17) Size(tier string) Size {
 	if tier == "thorough" {
 		return Size{Batches: 16, Cases: 25000}
 	}
-	return Size{Batches: 4, Cases: 2500}
+	return Size{Batches: 8, Cases: 1500}
 }
 func (c17) Rule() string {
 	return "case = one type spec (0-8 attributes over the 28 kinds, 0-3 relationships) materialised twice, as a soft type and as a reflect.StructOf struct, and ONE history of 1-40 well-typed Set calls (pool values, typed and untyped nil, Set on id) applied to both side by side; after every call every field of both is read back and compared with a last-writer-wins map model; fresh resources from Type.New, SoftResource.New, Wrapper.New must read all-zero with the type's name and fields. Equality laws (reflexive, symmetric, false on every single-change pair: type name, field name, one value, ID) on resources derived from the final state. Type-name pairs include a soft type without a name and a case variant. Non-trivial = history touching >= 2 fields with >= 1 overwrite."
